@@ -88,8 +88,9 @@ type creq struct {
 }
 
 type viol struct {
-	key string
-	msg string
+	key   string
+	msg   string
+	trail []string // the events leading up to it
 }
 
 type monitor struct {
@@ -141,7 +142,7 @@ func (m *monitor) note(s string) {
 
 func (m *monitor) fail(key, format string, a ...any) {
 	if len(m.viols) < 6 {
-		m.viols = append(m.viols, viol{key: key, msg: fmt.Sprintf("t=%d ", m.now()) + fmt.Sprintf(format, a...)})
+		m.viols = append(m.viols, viol{key: key, msg: fmt.Sprintf("t=%d ", m.now()) + fmt.Sprintf(format, a...), trail: append([]string(nil), m.trail...)})
 	}
 }
 
